@@ -183,7 +183,7 @@ Arguments N.ltb : simpl never.
 Arguments N.leb : simpl never.
 Arguments print_N : simpl never.
 Arguments classify : simpl never.
-Set Default Timeout 20.
+
 
 (* ================================================================== 2. the parser on what git prints *)
 
